@@ -237,16 +237,46 @@ def r2(ctx):
         ctx.violation("escape/html", ctx.where(fe),
                       "HTML cells must be `<td>` + escaped text + `</td>` with & (first), < and > replaced by entities; "
                       "template %s, escapes %s" % (tm, sorted(covered)))
-    # JSON: values collected per row and serialised by serde_json
-    h = ctx.anchor_hir(FMT["json"] + "::row_ended")
-    ok = any(is_call_to(c, "serde_json::ser::to_string") or "serde_json" in str(c.get("callee", "")) for c in walk_exprs(h) if c["k"] == "Call") and \
-        "self.file_map" in render(h) and any(c["k"] == "MCall" and c["m"] == "clear" for c in walk_exprs(h))
-    h2 = ctx.anchor_hir(FMT["json"] + "::format_element")
-    ins = [c for c in walk_exprs(h2) if c["k"] == "MCall" and c["m"] == "insert"]
-    ok = ok and len(ins) == 1 and render(ins[0]["args"][0]).startswith("name") and render(ins[0]["args"][1]).startswith("record")
+    # JSON: the cells of a row are collected under their column names and the row's text is the serde_json serialisation of
+    # that map, handed on unchanged; the map is empty again for the next row.  Evaluated (finite interpreter) on two rows
+    # whose values hold non-ASCII text, with serde_json as a stand-in that returns a token naming what it was given
+    import interp
+
+    def json_rows():
+        selfv = interp.LazySelf({"file_map": interp.BMap()})
+        seen = []
+
+        def call(node, recv, args, it, env):
+            callee = str(node.get("callee", ""))
+            if "serde_json" in callee and ("to_string" in callee or "to_vec" in callee or "to_writer" in callee):
+                m_ = [a_ for a_ in args if isinstance(a_, interp.HMap)]
+                tok = "<json of %s: \u00e9\U0001F600>" % (sorted(m_[0].items()) if m_ else "?")
+                seen.append(tok)
+                return (interp.V("Result::Ok", [tok]),)
+            return None
+        out = []
+        for row in ([("name", "a\u00e9"), ("size", "1")], [("name", "b\U00020BB7")]):
+            for i, (k_, v_) in enumerate(row):
+                fe_ = ctx.anchor_hir(FMT["json"] + "::format_element")
+                ps_ = ctx.prog.fns[FMT["json"] + "::format_element"]["params"]
+                r_ = interp.Interp(call=call, prog=ctx.prog).run(fe_, dict(zip([p_["id"] for p_ in ps_], [selfv, k_, v_, i == len(row) - 1])))
+                if r_ != interp.NONE:
+                    out.append(("cell", r_))
+            re_ = ctx.anchor_hir(FMT["json"] + "::row_ended")
+            ps_ = ctx.prog.fns[FMT["json"] + "::row_ended"]["params"]
+            out.append(("row", interp.Interp(call=call, prog=ctx.prog).run(re_, {ps_[0]["id"]: selfv})))
+        return out, seen, selfv
+    try:
+        out, seen, selfv = json_rows()
+        want = [("row", interp.some("<json of %s: \u00e9\U0001F600>" % sorted(r_))) for r_ in ([("name", "a\u00e9"), ("size", "1")], [("name", "b\U00020BB7")])]
+        ok = out == want and len(selfv["file_map"]) == 0
+        why = "two rows (name, size) / (name) with non-ASCII values come out as %s" % (out,)
+    except interp.Undecided as e:
+        ok, why = False, "cannot evaluate the JSON formatter: %s" % e
     ctx.obligation(ok)
     if not ok:
-        ctx.violation("escape/json", ctx.where(FMT["json"] + "::row_ended"), "a JSON row must be the serde_json serialisation of the (name -> value) map of that row, cleared afterwards")
+        ctx.violation("escape/json", ctx.where(FMT["json"] + "::row_ended"),
+                      "a JSON row must be the serde_json serialisation of the (name -> value) map of that row, handed on unchanged, and the map must be empty for the next row; %s" % why)
     # CSV: csv::Writer::write_record of the row's values
     h = ctx.anchor_hir(FMT["csv"] + "::row_ended")
     ok = any(c["k"] == "MCall" and c["m"] == "write_record" and "self.records" in render(c["args"][0]) for c in walk_exprs(h)) and \
